@@ -2,7 +2,8 @@
    Instants are int64 nanoseconds since the Unix epoch (time.Time.UnixNano); [in_era u] says
    1970-01-01 <= u < end of NTP era 0 (2036). *)
 From Coq Require Import ZArith.
-From RTP Require Import Model.ExtCodecs Model.Ntp Proofs.C18_Ntp.
+From Coq Require Import List.
+From RTP Require Import Base.Res Model.ExtCodecs Model.Ntp Proofs.C18_Ntp Proofs.C18_Wire.
 Open Scope Z_scope.
 
 Theorem C18_capture : forall u, in_era u ->
@@ -19,6 +20,17 @@ Theorem C18_estimate : forall send delay,
   0 <= send - estimate (new_abs_send_time send) (send + delay) <= 3816.
 Proof. exact estimate_recovers_any. Qed.
 Print Assumptions C18_estimate.
+
+(* "applied to the 24-bit abs-send-time of the send instant": the same through the wire form - what a
+   receiver holds after Marshal / Unmarshal of NewAbsSendTimeExtension(send), whatever its struct held
+   before, is the low 24 bits of the sender's 50-bit value, and Estimate on it recovers the send instant *)
+Theorem C18_estimate_over_the_wire : forall send delay prev,
+  in_era send -> 0 <= delay <= max_delay ->
+  exists bs got, abs_send_marshal (new_abs_send_time send) = Ok bs /\ length bs = 3%nat /\
+    abs_send_unmarshal prev bs = Ok got /\ got = new_abs_send_time send mod 16777216 /\
+    0 <= send - estimate got (send + delay) <= 3816.
+Proof. exact estimate_over_the_wire. Qed.
+Print Assumptions C18_estimate_over_the_wire.
 
 Theorem C18_offset : forall u d, - offset_limit < d < offset_limit ->
   exists back, offset_duration (new_abs_capture_time_with_offset u d) = Some back /\
